@@ -46,6 +46,7 @@ def check(obs):
     req_segments = set()
     proposed = {}                 # direction -> proposed window of segment 0
     client_acked_response = []    # non-empty once the requester has sent a segment-ack for the response
+    granted, seen_seq = {}, {}
     for f in obs["frames"]:
         a = f.get("apci")
         if a is None:
@@ -55,6 +56,18 @@ def check(obs):
             if k in a and a["type"] in (0, 3, 4) and (a["type"] == 4 or a.get("seg")):
                 if not (1 <= a["win"] <= 127):
                     fails.append(("window-out-of-range:%s" % RA.NAMES[a["type"]], "window %d in frame %d (%s)" % (a["win"], f["i"], _short_cfg(c))))
+        # the window field of every segment after the first is the window the receiver granted, never the sender's own proposal again
+        if a["type"] in (0, 3) and a.get("seg"):
+            d_ = "request" if a["type"] == 0 else "response"
+            seen_seq[d_] = seen_seq.get(d_, 0) + (1 if a["seq"] not in (0,) or d_ not in seen_seq else 0)
+            later = a["seq"] != 0 or seen_seq.get(d_ + ":255")
+            if a["seq"] == 255:
+                seen_seq[d_ + ":255"] = True
+            if later and d_ in granted and a["win"] > granted[d_]:
+                fails.append(("segment-window-exceeds-grant:%s" % d_, "%s segment with sequence number %d carries window %d, the receiver granted %d (frame %d, %s)"
+                              % (d_, a["seq"], a["win"], granted[d_], f["i"], _short_cfg(c))))
+        elif a["type"] == 4:
+            granted["request" if f["src"] == 2 else "response"] = a["win"]
         if f["src"] == 1:
             if a["type"] == 0:
                 req_hdr = a
@@ -534,6 +547,11 @@ def run(spec, ctx):
                 for know in (False, True):
                     ctx.check(dict(k="cap", cfg=dict(c_apdu=50, s_apdu=50, c_segs=100, s_segs=100, c_win=cw, s_win=sw, req_len=n, rsp_len=n, know=know, retries=0)))
         ctx.mark_exhaustive("window pairs over {1,2,3,8,64,126,127}^2")
+        # transfers that wrap the sequence number, with a receiver that grants less than the sender proposes
+        nbig = txn.payload_for_total(44 * 263 - 3)
+        for cw, sw in ((8, 3), (3, 8), (127, 2)):
+            ctx.check(dict(k="cap", cfg=dict(c_apdu=50, s_apdu=50, c_segs=100, s_segs=100, c_win=cw, s_win=sw, req_len=nbig, rsp_len=5, know=False, retries=0)))
+            ctx.check(dict(k="cap", cfg=dict(c_apdu=50, s_apdu=50, c_segs=100, s_segs=100, c_win=cw, s_win=sw, req_len=5, rsp_len=nbig, know=False, retries=0)))
         # the negative-ack and retransmission paths also carry window fields: every single drop / duplicate on a 6-segment exchange
         n6 = txn.payload_for_total(44 * 6 - 3)
         for cw in (1, 2, 8, 127):
